@@ -334,7 +334,7 @@ theorem option_some_of_isSome {α : Type} {o : Option α} (h : o.isSome = true) 
   | some x => exact ⟨x, rfl⟩
 
 /-- identifying data of a certificate -/
-def certId (c : Cert) : CertKind × Nat × Nat := (c.kind, c.slot, c.hash)
+def cid3 (c : Cert) : CertKind × Nat × Nat := (c.kind, c.slot, c.hash)
 
 /-- the certificates the notarization vote of `j` creates, after those of `X` -/
 def newNotarCerts (e : Epoch) (s h : Nat) (X : List Nat) (j : Nat) : List (CertKind × Nat × Nat) :=
@@ -388,7 +388,7 @@ theorem NotarSt.addNotar {e : Epoch} (hpos : 0 < e.total) {s h : Nat} {X F : Lis
     Silent (st.addVote e ⟨.notar, s, h, j⟩).2.2 ∧
     NotarSt e s h (X ++ [j]) F
       ((st.addVote e ⟨.notar, s, h, j⟩).2.1.foldl SlotState.addCert (st.addVote e ⟨.notar, s, h, j⟩).1) ∧
-    (st.addVote e ⟨.notar, s, h, j⟩).2.1.map certId = newNotarCerts e s h X j := by
+    (st.addVote e ⟨.notar, s, h, j⟩).2.1.map cid3 = newNotarCerts e s h X j := by
   obtain ⟨b, cc⟩ := hst
   have hcalm0 : Calm e h { st with vNotar := st.vNotar ++ [(j, h)] } := by
     have c0 := b.calm
@@ -532,7 +532,7 @@ theorem NotarSt.addNotar {e : Epoch} (hpos : 0 < e.total) {s h : Nat} {X F : Lis
     rw [hcN', hcF']
     cases hq0 : e.isQuorum (stakeOf e X) <;> cases hq1 : e.isQuorum (stakeOf e (X ++ [j])) <;>
       cases hf0 : e.isStrong (stakeOf e X) <;> cases hf1 : e.isStrong (stakeOf e (X ++ [j])) <;>
-      simp [certId, mkNfCert, notarCertOf, ffCertOf, hS5]
+      simp [cid3, mkNfCert, notarCertOf, ffCertOf, hS5]
 
 /-- **the finalization vote of `j` enters the slot state** -/
 theorem NotarSt.addFinal {e : Epoch} {s h : Nat} {X F : List Nat} {st : SlotState}
@@ -540,7 +540,7 @@ theorem NotarSt.addFinal {e : Epoch} {s h : Nat} {X F : List Nat} {st : SlotStat
     Silent (st.addVote e ⟨.final, s, 0, j⟩).2.2 ∧
     NotarSt e s h X (F ++ [j])
       ((st.addVote e ⟨.final, s, 0, j⟩).2.1.foldl SlotState.addCert (st.addVote e ⟨.final, s, 0, j⟩).1) ∧
-    (st.addVote e ⟨.final, s, 0, j⟩).2.1.map certId =
+    (st.addVote e ⟨.final, s, 0, j⟩).2.1.map cid3 =
       (if (e.isQuorum (stakeOf e (F ++ [j])) && !e.isQuorum (stakeOf e F)) = true then [(.final, s, 0)] else []) := by
   obtain ⟨b, cc⟩ := hst
   obtain ⟨hsil, hcalm⟩ := addVote_final_calm e h st ⟨.final, s, 0, j⟩ rfl b.calm
@@ -605,7 +605,7 @@ theorem NotarSt.addFinal {e : Epoch} {s h : Nat} {X F : List Nat} {st : SlotStat
       have := hq hq0; rw [hq1] at this; cases this
   · rw [hlist']
     split
-    · simp [certId, finCertOf, hS5]
+    · simp [cid3, finCertOf, hS5]
     · rfl
 
 /-! ### a slot that is being skipped -/
@@ -638,7 +638,7 @@ theorem SkipSt.admit {e : Epoch} {t : Nat} {Y : List Nat} {st : SlotState} (hst 
 theorem SkipSt.addSkip {e : Epoch} {t : Nat} {Y : List Nat} {st : SlotState} (hst : SkipSt e t Y st) (j : Nat) :
     (st.addVote e ⟨.skip, t, 0, j⟩).2.2 = [] ∧
     SkipSt e t (Y ++ [j]) ((st.addVote e ⟨.skip, t, 0, j⟩).2.1.foldl SlotState.addCert (st.addVote e ⟨.skip, t, 0, j⟩).1) ∧
-    (st.addVote e ⟨.skip, t, 0, j⟩).2.1.map certId =
+    (st.addVote e ⟨.skip, t, 0, j⟩).2.1.map cid3 =
       (if (e.isQuorum (stakeOf e (Y ++ [j])) && !e.isQuorum (stakeOf e Y)) = true then [(.skip, t, 0)] else []) := by
   have hcore := addVote_core e st ⟨.skip, t, 0, j⟩
   have hcerts := addVote_certs e st ⟨.skip, t, 0, j⟩
@@ -702,7 +702,7 @@ theorem SkipSt.addSkip {e : Epoch} {t : Nat} {Y : List Nat} {st : SlotState} (hs
       have := hq hq0; rw [hq1] at this; cases this
   · rw [hlist']
     split
-    · simp [certId, skipCertOf, hS5]
+    · simp [cid3, skipCertOf, hS5]
     · rfl
 
 end AgModel.Pool
